@@ -189,11 +189,12 @@ func genValsetHist(r *Rng, i int, tier string) []string {
 		p := strings.Split(k, ">")
 		return p[0], p[1], dels[k]
 	}
+	jailedOnce := false
 	for k := 0; k < nops; k++ {
 		acct := fmt.Sprintf("a%d", r.Intn(3))
 		frac := r.Pick(100, 100, 99, 50, 49, 51, 10)
 		amt := budget * frac / 100
-		switch r.Intn(12) {
+		switch r.Intn(13) {
 		case 0, 1, 2:
 			if amt > 0 {
 				v := vals[r.Intn(len(vals))]
@@ -254,6 +255,12 @@ func genValsetHist(r *Rng, i int, tier string) []string {
 			}
 		case 10: // some validators stay silent for a block (their slots stay empty)
 			add("blk 1000 abs=%s", vals[r.Intn(len(vals))])
+		case 11: // a validator misses the signing window: slashed 1 %, jailed (it leaves the bridge set), unjailed ten minutes later
+			if !jailedOnce && len(vals) >= 3 {
+				jailedOnce = true
+				downtime(add, vals[1+r.Intn(len(vals)-1)])
+				budget = total / 20
+			}
 		default:
 			add("blk %d", r.Pick(1, 1000, 1500, 60000))
 		}
